@@ -5,7 +5,6 @@ use crate::checks::xp::*;
 use crate::engine::{panic_site, Check, Finding, Meta, Sink, Space, Tier};
 use crate::model::adoc::ADoc;
 use crate::model::xpath::canonical;
-use std::time::Instant;
 
 pub struct C06C;
 pub static C06: C06C = C06C;
@@ -24,7 +23,7 @@ fn three_docs() -> Vec<ADoc> {
         vec![at("xml:lang", "en")],
         vec![e("a", vec![at("xml:lang", "en-US")], vec![tx("t")]), e("b", vec![at("xml:lang", "日本語")], vec![]), e("c", vec![at("xml:lang", "")], vec![]), e("d", vec![at("xml:lang", "é")], vec![])],
     ));
-    vec![d[0].clone(), d[1].clone(), d[4].clone(), langs]
+    vec![d[0].clone(), d[1].clone(), d[4].clone(), langs, d[9].clone()]
 }
 
 fn classify(o: &Outcome) -> &'static str {
